@@ -341,4 +341,62 @@ class stereo_product(_stereo_side):
     keep_label, method = "FORMED", "product"
 
 
-DERIVATIONS = {"reactant(stereo)": stereo_reactant, "product(stereo)": stereo_product, "reactant": reactant, "product": product, "reverse_reaction": reverse_reaction, "subgraph(any size)": subgraph_any, "copy": copy, "copy_constructor": copy_constructor, "relabel_atoms(copy=True)": relabel_copy, "relabel_atoms(copy=False)": relabel_inplace, "subgraph": subgraph, "enantiomer": enantiomer}
+def _separate(v1, v2, cname):
+    """two different graph objects: no table, attribute dict, neighbour set or change dict of one belongs to the other"""
+    x, y = z3.Ints("s1 s2")
+    b, b2 = z3.Const("sb1", BondS), z3.Const("sb2", BondS)
+    cl = []
+    t1 = [r for r in (v1.AT, v1.NT, v1.BT, v1.AS, v1.BS, v1.AC, v1.BC) if r is not None]
+    t2 = [r for r in (v2.AT, v2.NT, v2.BT, v2.AS, v2.BS, v2.AC, v2.BC) if r is not None]
+    cl += [a != c for a, c in zip(t1, t2)]
+    cl.append(z3.ForAll([x, y], z3.Implies(z3.And(v1.atom(x), v2.atom(y)), z3.And(v1.aref(x) != v2.aref(y), v1.nref(x) != v2.nref(y))),
+                        patterns=[z3.MultiPattern(v1.aref(x), v2.aref(y)), z3.MultiPattern(v1.nref(x), v2.nref(y))]))
+    cl.append(z3.ForAll([b, b2], z3.Implies(z3.And(v1.bond(b), v2.bond(b2)), v1.bref(b) != v2.bref(b2)), patterns=[z3.MultiPattern(v1.bref(b), v2.bref(b2))]))
+    cl.append(z3.ForAll([x, b], z3.Implies(z3.And(v1.atom(x), v2.bond(b)), v1.aref(x) != v2.bref(b)), patterns=[z3.MultiPattern(v1.aref(x), v2.bref(b))]))
+    cl.append(z3.ForAll([x, b], z3.Implies(z3.And(v2.atom(x), v1.bond(b)), v2.aref(x) != v1.bref(b)), patterns=[z3.MultiPattern(v2.aref(x), v1.bref(b))]))
+    return z3.And(*cl)
+
+
+class compose2(Derivation):
+    """C17: cls.compose((g, h)) for two arbitrary well-formed graphs of the class (different objects): the labelled union,
+    attributes and descriptors of the LATER graph h winning where atoms or bonds overlap; a new graph"""
+    classes = ALL  # discharged for MolGraph and CondensedReactionGraph; the stereo classes add four deepcopies and stay bounded (E3)
+
+    def call(self, it, g, cname):
+        from ..pyvc import graphmodel as GM
+
+        h2 = GM.sym_graph(it, cname, "h_")
+        hp = heap_of(it)
+        vg, vh = GM.View(hp.snapshot(), g), GM.View(hp.snapshot(), h2)
+        for name, f in GM.wf_clauses(vh, cname, tag="h"):
+            it.assume(f)
+        it.assume(_separate(vg, vh, cname))
+        self._h = h2
+        return ("method", "compose", [(g, h2)], {}), {"h_obj": None}
+
+    def other_sources(self):
+        return [self._h]
+
+    def spec(self, v, s, cname):
+        from ..pyvc import graphmodel as GM
+
+        w = GM.View(v.h, self._h)
+        sp = {
+            "atom": lambda x: z3.Or(v.atom(x), w.atom(x)),
+            "attr_has": lambda x, k: z3.If(w.atom(x), w.attr_has(x, k), v.attr_has(x, k)),
+            "attr_val": lambda x, k: z3.If(w.atom(x), w.attr_val(x, k), v.attr_val(x, k)),
+            "bond": lambda b: z3.Or(v.bond(b), w.bond(b)),
+            "battr_has": lambda b, k: z3.If(w.bond(b), w.battr_has(b, k), v.battr_has(b, k)),
+            "battr_val": lambda b, k: z3.If(w.bond(b), w.battr_val(b, k), v.battr_val(b, k)),
+        }
+        if cname in STEREO:
+            sp["as"] = lambda x: z3.If(w.as_has(x), osome(w.as_val(x)), as_view(v, x))
+            sp["bs"] = lambda b: z3.If(w.bs_has(b), osome(w.bs_val(b)), bs_view(v, b))
+        if cname == "StereoCondensedReactionGraph":
+            # a whole entry of the later graph replaces the entry of the earlier one
+            sp["ac"] = lambda x, c: z3.If(w.ac_has(x), ac_view(w, x, c), ac_view(v, x, c))
+            sp["bc"] = lambda b, c: z3.If(w.bc_has(b), bc_view(w, b, c), bc_view(v, b, c))
+        return sp
+
+
+DERIVATIONS = {"compose(g, h)": compose2, "reactant(stereo)": stereo_reactant, "product(stereo)": stereo_product, "reactant": reactant, "product": product, "reverse_reaction": reverse_reaction, "subgraph(any size)": subgraph_any, "copy": copy, "copy_constructor": copy_constructor, "relabel_atoms(copy=True)": relabel_copy, "relabel_atoms(copy=False)": relabel_inplace, "subgraph": subgraph, "enantiomer": enantiomer}
